@@ -211,8 +211,10 @@ class PortMachine(Machine):
             return dict(op="port_set_platform", t=t, p=s.choice(cfg["platforms"]))
         if r < 0.92:
             return dict(op="port_set_port_nr", t=t, b=s.random() < 0.5)
-        if r < 0.96:
+        if r < 0.94:
             return dict(op=s.choice(["port_copy", "port_rebuild"]), t=t)
+        if r < 0.96 and len(self.slots) > 1:
+            return dict(op="port_xfer", t=t, u=s.randrange(len(self.slots)))
         # codec round trip on a generated subset
         n = s.choice([0, 1, 2, 5, 30])
         ports = sorted({self._operand(w) for _ in range(n)})
@@ -536,6 +538,32 @@ class PortMachine(Machine):
         if self._observe(c) != self._observe(slot["obj"]):
             self._fail("C08.copy", "copy() differs from source")
         slot["obj"] = c
+        return "ok"
+
+    def _op_port_xfer(self, op):
+        """Assign one expression's items to another live expression: the giver must not change
+        (its denotation clause keeps holding), the taker gets the giver's operands."""
+        src, dst = self._slot(op["u"]), self._slot(op["t"])
+        if src is None or dst is None or src is dst:
+            return "noop"
+        if dst["plat"] != "ios" and dst["op"] in ("eq", "neq") and len(src["operands"]) > 1:
+            return "noop"
+        if dst["op"] in ("lt", "gt") and len(src["operands"]) != 1:
+            return "noop"
+        if dst["op"] == "range" and len(src["operands"]) != 2:
+            return "noop"
+        pre = self._observe(src["obj"])
+        try:
+            dst["obj"].items = src["obj"].items
+        except (ValueError, TypeError):
+            dst["obj"] = self._build(dst)
+            return "rejected"
+        dst["operands"] = sorted(src["operands"])
+        if self._observe(src["obj"]) != pre:
+            self._fail("C08.xfer-changed-source", f"assigning a.items = b.items changed b: "
+                                                  f"{pre[0]!r} -> {src['obj'].line!r}")
+        self._check(src["obj"], src, "giver after items transfer")
+        self._check(dst["obj"], dst, "taker after items transfer")
         return "ok"
 
     def _op_port_rebuild(self, op):
